@@ -18,7 +18,7 @@ CHECKS = {
         'rule': 'BigInt state exploration vs schoolbook reference',
         'parts': [
             P('props/C19.cpp', 'fast', 'bigint-fast'),
-            P('props/C19.cpp', 'asan', 'bigint-asan', tier_args={'quick': ['--depth', '2', '--dspan', '512'], 'thorough': ['--depth', '3', '--dspan', '4096']}),
+            P('props/C19.cpp', 'asan', 'bigint-asan', tier_args={'quick': ['--depth', '3', '--dspan', '512', '--u8depth', '1'], 'thorough': ['--depth', '4', '--dspan', '4096', '--u8depth', '2']}),
         ],
         'floor': {'quick': 1000, 'thorough': 1000},
     },
